@@ -436,7 +436,7 @@ class Engine:
         ndiv = 0
         t0 = time.time()
         for k, beh in enumerate(behs):
-            r = proto.replay(topo, beh)
+            r = proto.replay(topo, beh, pipe=SimPipeline(topo, local_clocks=True, warn=k % 2 == 0))
             pipe = r['pipe']
             try:
                 self.rep.traces += 1
@@ -448,6 +448,7 @@ class Engine:
                     finish_prompt(pipe, common.rng(self.ctx, f'drift{k}'), 200)
                 self.judge_pipe(topo, pipe, {'kind': 'trace', 'topo': topo.name, 'topo_def': topo.to_dict(),
                                              'seed': self.ctx.seed, 'trace': [list(t) for t in pipe.world.trace],
+                                             'pipekw': {'warn': k % 2 == 0},
                                              'origin': f'TLC -simulate behaviour {k} of {topo.name}/{spec}'},
                                 **(judgekw or {}))
                 if k == 0:
@@ -504,14 +505,14 @@ class Engine:
         recorded = []
         for k in range(n):
             rng = common.rng(self.ctx, f'{topo.name}/{tag}/{k}')
-            pipe = SimPipeline(topo, **dict(pipekw or {}, record=k < validate))
+            pipe = SimPipeline(topo, **dict(dict(warn=k % 2 == 0), **dict(pipekw or {}, record=k < validate)))
             try:
                 pipe.start()
                 fl = faults(rng, pipe) if faults else None
                 run_schedule(pipe, rng, steps, p_timeout=p_timeout, p_drop=p_drop, faults=fl)
                 self.judge_pipe(topo, pipe, {'kind': 'trace', 'topo': topo.name, 'topo_def': topo.to_dict(),
                                              'seed': self.ctx.seed, 'origin': f'random schedule {tag}/{k}',
-                                             'pipekw': pipekw or {}, 'trace': [list(t) for t in pipe.world.trace]},
+                                             'pipekw': dict(dict(warn=k % 2 == 0), **(pipekw or {})), 'trace': [list(t) for t in pipe.world.trace]},
                                 **(judgekw or {}))
                 if pipe.rec is not None:
                     recorded.append(pipe.rec)
